@@ -5,7 +5,7 @@ Two halves (DESIGN.md section 6, C13):
     (Model/LexTotal.lean is this property's own byte-level scanner with line numbers and explicit over-read outcomes).
   * real process: outcome-class campaign.  `chibicc -cc1` is run DIRECTLY (signals visible) twice per input - the plain
     snapshot binary and an ASan/UBSan build of the same snapshot - and the outcome is classified
-        ok | diag(file,line) | signal | stack-overflow | internal-error | assertion | timeout | resource | silent-nonzero |
+        ok | diag(file,line) | signal | stack-overflow | internal-error | assertion | timeout | oom | silent-nonzero |
         sanitizer(kind) | bad-location | unlocated-diag | as-reject | valid-rejected
     Everything but ok / diag is a violation, clustered by signature = class@site (site = innermost chibicc function of the
     ASan/gdb backtrace, the function containing `internal error at file:line`, the asserting function, ...), shrunk by
@@ -50,7 +50,7 @@ ASSUMPTIONS = [
 TIMEOUT = 10
 ASAN_TIMEOUT = 40
 RSS_LIMIT_KB = 3_500_000
-BAD = ('signal', 'stack-overflow', 'internal-error', 'assertion', 'timeout', 'resource', 'silent-nonzero', 'sanitizer',
+BAD = ('signal', 'stack-overflow', 'internal-error', 'assertion', 'timeout', 'oom', 'silent-nonzero', 'sanitizer',
        'bad-location', 'unlocated-diag', 'as-reject', 'valid-rejected')
 
 # ------------------------------------------------------------------------------------------------ builds
@@ -163,6 +163,50 @@ def recursing_function(text):
     return sorted(cnt.items(), key=lambda kv: (-kv[1], kv[0]))[0][0]
 
 
+DECL_NEST = re.compile(rb'(?:\(\s*\*?\s*){16,}[A-Za-z_]\w*')
+INCLUDE = re.compile(rb'(?m)^[ \t]*#[ \t]*include(?:_next)?[ \t]*(?:"([^"\n]*)"|<([^>\n]*)>|(__FILE__))')
+
+
+def include_cycle(case):
+    """the files of the case include each other in a cycle that is reachable from the main file"""
+    main = case.get('name', 'f.c')
+    files = dict(case.get('files') or {})
+    files[main] = case['data']
+    graph = {}
+    for name, data in files.items():
+        outs = set()
+        for m in INCLUDE.finditer(data):
+            if m.group(3):
+                outs.add(name)
+            else:
+                tgt = (m.group(1) or m.group(2) or b'').decode('utf-8', 'replace')
+                for cand in files:
+                    if cand == tgt or os.path.basename(cand) == os.path.basename(tgt):
+                        outs.add(cand)
+        graph[name] = outs
+    seen, stack = set(), set()
+
+    def dfs(n):
+        seen.add(n)
+        stack.add(n)
+        for m in graph.get(n, ()):
+            if m in stack or (m not in seen and dfs(m)):
+                return True
+        stack.discard(n)
+        return False
+    return dfs(main)
+
+
+def hang_site(case):
+    """site of a timeout / memory exhaustion, decided on the input: a declarator nested in >= 16 parentheses (an identifier
+    directly after 16 or more '(' each optionally followed by '*'), a cyclic #include graph, else the generator family"""
+    if include_cycle(case):
+        return 'include-cycle'
+    if DECL_NEST.search(case['data']):
+        return 'declarator-paren-nesting'
+    return 'other:' + case.get('family', case['gen'])
+
+
 def norm_msg(s):
     s = re.sub(r"'[^']*'", "'_'", s)
     s = re.sub(r'"[^"]*"', '"_"', s)
@@ -222,8 +266,8 @@ class Runner:
         kind, n = status
         r = {'cls': None, 'site': '', 'detail': '', 'line': None, 'msg': ''}
         if kind == 'timeout':
-            r['cls'] = 'resource' if rss > RSS_LIMIT_KB else 'timeout'
-            r['site'] = case.get('family', case['gen'])
+            r['cls'] = 'oom' if rss > RSS_LIMIT_KB else 'timeout'
+            r['site'] = hang_site(case)
             return r
         if 'AddressSanitizer' in text or 'runtime error:' in text or 'LeakSanitizer' in text:
             fr = innermost_frame(text)
@@ -241,8 +285,8 @@ class Runner:
                 r['detail'] = k
                 r['site'] = fr[0] if fr else '?'
             elif k in ('out-of-memory', 'allocation-size-too-big', 'calloc-overflow', 'requested'):
-                r['cls'] = 'resource'
-                r['site'] = fr[0] if fr else '?'
+                r['cls'] = 'oom'
+                r['site'] = hang_site(case)
             else:
                 r['cls'] = 'sanitizer'
                 r['detail'] = k
@@ -252,8 +296,8 @@ class Runner:
             return r
         if kind == 'signal':
             if rss > RSS_LIMIT_KB:
-                r['cls'] = 'resource'
-                r['site'] = case.get('family', case['gen'])
+                r['cls'] = 'oom'
+                r['site'] = hang_site(case)
                 return r
             m = re.search(r'(\w+\.c):(\d+): (\w+): Assertion', text)
             if m:
@@ -282,8 +326,8 @@ class Runner:
             return r
         if not text.strip():
             if rss > RSS_LIMIT_KB:
-                r['cls'] = 'resource'
-                r['site'] = case.get('family', case['gen'])
+                r['cls'] = 'oom'
+                r['site'] = hang_site(case)
                 return r
             r['cls'] = 'silent-nonzero'
             r['site'] = f'rc{n}'
@@ -385,7 +429,7 @@ class Runner:
             if which in ('both', 'plain'):
                 res['plain'] = self.run_one(self.plain, case, d, src, False)
             p = res['plain']
-            skip_asan = p is not None and p['cls'] in ('timeout', 'resource')
+            skip_asan = p is not None and p['cls'] in ('timeout', 'oom')
             if which in ('both', 'asan') and not skip_asan:
                 res['asan'] = self.run_one(self.asan, case, d, src, True)
             a = res['asan']
@@ -405,9 +449,12 @@ class Runner:
                             final['site'] = fr[0]
                             final['detail'] += f' gdb {fr[1]}:{fr[2]}'
             elif a and a['cls'] in BAD:
-                if a['cls'] in ('timeout', 'resource'):
+                if a['cls'] in ('timeout', 'oom'):
                     final = None      # the sanitized build is slower; not a verdict
                     res['asan_slow'] = True
+                elif a['cls'] == 'sanitizer' and a['detail'].startswith('ub:'):
+                    final = None      # UBSan-only: undefined behaviour inside the compiler that neither kills nor misleads it
+                    res['ubsan_only'] = a['detail'].split(' ')[0] + '@' + a['site']
                 else:
                     final = dict(a)
             if final is None:
@@ -455,9 +502,9 @@ def ddmin(atoms, test, budget):
 def shrink(runner, case, sig, budget_runs):
     cls = sig.split('@')[0]
     which = 'asan' if cls in ('sanitizer', 'stack-overflow') else ('both' if cls == 'signal' else 'plain')
-    if cls in ('timeout', 'resource'):
+    if cls in ('timeout', 'oom'):
         budget_runs = min(budget_runs, 6)
-    deadline = time.time() + (60 if cls in ('timeout', 'resource') else 30)
+    deadline = time.time() + (60 if cls in ('timeout', 'oom') else 30)
     data = case['data']
     textual = case.get('textual', True)
     atoms = G.lex_atoms(data) if textual and len(data) < 200000 else None
@@ -518,6 +565,8 @@ def match_known(sig, km):
     if sig in m:
         return m[sig]
     for pat, fid in m.items():
+        if pat in ('timeout@*', 'oom@*', 'signal@*', 'sanitizer@*'):
+            continue            # too broad: a listed finding must name its call site
         if any(ch in pat for ch in '*?[') and fnmatch.fnmatchcase(sig, pat):
             return fid
     site = sig.split('@', 1)[1] if '@' in sig else ''
@@ -583,11 +632,11 @@ def campaign(ctx, corr, cases, runner, km, budget_shrink=120, label=''):
             results[i] = {'final': {'cls': 'harness-error', 'site': type(ex).__name__, 'sig': 'harness-error', 'detail': str(ex)[:200]}}
     with concurrent.futures.ThreadPoolExecutor(max_workers=NPROC) as ex:
         list(ex.map(work, range(len(cases))))
-    slow = [i for i, r in enumerate(results) if r['final']['cls'] in ('timeout', 'resource')]
+    slow = [i for i, r in enumerate(results) if r['final']['cls'] in ('timeout', 'oom')]
     if slow:
         def again(i):
             r2 = runner.run_case(cases[i], which='plain')
-            if r2['final']['cls'] not in ('timeout', 'resource'):
+            if r2['final']['cls'] not in ('timeout', 'oom'):
                 results[i] = runner.run_case(cases[i])
                 return 1
             return 0
@@ -603,6 +652,9 @@ def campaign(ctx, corr, cases, runner, km, budget_shrink=120, label=''):
         corr.count('outcome:' + f['cls'])
         if res.get('asan_slow'):
             corr.count('asan_run_too_slow_ignored')
+        if res.get('ubsan_only'):
+            corr.count('ubsan_only')
+            corr.count('ubsan_only:' + re.sub(r'[^\w@:.-]+', '_', res['ubsan_only'])[:70])
         if f['cls'] == 'diag':
             if f.get('detail'):
                 corr.count('diag:' + f['detail'])
